@@ -8,7 +8,7 @@ binary at EVERY concrete call position of its kind (learned from a dry run): har
 k-th open/read/write/fchown/fchmod/futimens/close/unlink fail or sends the signal right there, and the
 resulting files and exit status must be the ones the model gives for that injection."""
 import bz2, json, os, random, re, shutil, signal
-import vlib, campaign, inproc
+import vlib, campaign, inproc, crashtrace
 
 LEVEL = "fault_enumeration"
 SIGNO = {"sigint": signal.SIGINT, "sigterm": signal.SIGTERM, "kill": signal.SIGKILL}
@@ -77,57 +77,10 @@ def run_one(exe, shim, scen, keep, env_extra, idx):
         shutil.rmtree(d, ignore_errors=True)
 
 
-MAINPATH = ("OpIn", "Cli", "OpOut", "Worked", "Halt", "OutDone", "InRm", "Sti", "StiDone", "InDone", "Exit", "Cleanup", "Terminate",
-            "BailoutMain", "BailoutSub")
-
-
 def validate_paths(rep, results):
-    """One concatenated trace: Plan line, the run's main-path events, End line (what the driver observed)."""
-    d = vlib.spec_workdir("tcrash", ["TraceCrash.tla"])
-    with open(os.path.join(d, "T.cfg"), "w") as f:
-        f.write("SPECIFICATION Spec\nINVARIANTS NotAccepted\nCHECK_DEADLOCK FALSE\n")
-    units = []
-    for scen, keep, st, f, what, (res, inp, out, err, extra, fired, trace) in results:
-        lines = [json.dumps({"e": "Plan", "keep": bool(keep), "fault": f, "what": what})]
-        if os.path.exists(trace):
-            for line in open(trace):
-                m = re.search(r'"e":"(\w+)"', line)
-                if m and m.group(1) in MAINPATH and line.rstrip().endswith("}"):
-                    lines.append(line.strip())
-        lines.append(json.dumps({"e": "End", "res": "killed" if res == "killed" else res, "inp": inp, "out": out}))
-        units.append(("%s%s, %s" % (scen["name"], " -k" if keep else "", what), lines))
-
-    def check(us, tag):
-        cat = os.path.join(d, "cat_%s.ndjson" % tag)
-        with open(cat, "w") as fh:
-            for _, ls in us:
-                fh.write("\n".join(ls) + "\n")
-        r = vlib.tlc(d, "TraceCrash.tla", "T.cfg", env={"TRACE": cat}, workers=1, timeout=900, extra=["-metadir", os.path.join(d, "md_" + tag)])
-        ok = r.violated == ["NotAccepted"]
-        if not ok and not r.rejects and not (r.completed or r.distinct):
-            raise vlib.Infra("TLC failed on %s:\n%s" % (cat, r.text[-1500:]))
-        return ok, r
-    n = sum(len(ls) for _, ls in units)
-    rep.add("main_path_events_validated", n)
-    rep.add("traces_validated_against_impl", len(units))
-    ok, r = check(units, "all")
-    if ok:
-        return []
-    # localise by bisection over units
-    bad, todo = [], [units]
-    while todo and len(bad) < 4:
-        us = todo.pop()
-        ok, r = check(us, "b%d" % len(us))
-        if ok:
-            continue
-        if len(us) == 1:
-            i, ev, why = r.rejects[-1] if r.rejects else (r.distinct, "?", "event not explained by any action")
-            bad.append(("event %s (%s): %s" % (i, ev, why), us[0][0]))
-        else:
-            todo += [us[len(us) // 2:], us[:len(us) // 2]]
-    if not bad:
-        raise vlib.Infra("concatenated main-path trace rejected but every single run accepted")
-    return bad
+    units = [crashtrace.unit("%s%s, %s" % (scen["name"], " -k" if keep else "", what), keep, f, trace, res, inp, out)
+             for scen, keep, st, f, what, (res, inp, out, err, extra, fired, trace) in results]
+    return crashtrace.validate_units(rep, units)
 
 
 def run(rep, tier, replay):
